@@ -3,6 +3,7 @@
 -/
 import Lemmas.WrapText
 import Lemmas.FragEnds
+import Lemmas.EndsOk
 namespace TW.C01
 
 section
@@ -133,6 +134,44 @@ theorem ascii_no_trailing_space (env : Env) (mo : MinimaOracle α) (hmo : MoShap
         obtain ⟨pre, g, post, e1, e2⟩ := specLines_slices o groups 0 nPrev d hd
         rw [e2]
         exact groupSlice_no_trailing_sp words hfe pre.flatten g post.flatten (by rw [← p1, e1]; simp)
+
+/-- **4b. without force-breaking no slice ends in a space, for BOTH separators** (built-in
+    splitters, both algorithms, every width): the words of `Word::from` are trimmed and the hyphen
+    splitter cuts directly after a `'-'`. For the Unicode separator relative to the LB7 clause of
+    the external routine (no opportunity directly before a space; validated on every call).
+    With `break_words` on, a force-broken Unicode word may itself contain a space — the exception
+    the property names. -/
+-- @audit TW.C01.no_trailing_space_nobreak
+theorem no_trailing_space_nobreak (env : Env) (mo : MinimaOracle α) (hmo : MoShape mo) (o : Opts)
+    (hb : Builtin o.splitter) (hbw : o.breakWords = false) (line : Text)
+    (hc : o.sep = .unicode → OppsNoSpace (stripAnsi line) (env.opps (stripAnsi line)))
+    (nPrev : Nat) (ds : List LineD)
+    (h : wrapSingleLine env mo o line nPrev = some ds) : ∀ d ∈ ds, d.slice.getLast? ≠ some SP := by
+  unfold wrapSingleLine at h
+  by_cases hcnd : blen line < o.width ∧ (if nPrev = 0 then o.initialIndent else o.subsequentIndent).isEmpty = true
+  · rw [if_pos hcnd] at h
+    simp only [Option.some.injEq] at h; subst h
+    intro d hd
+    simp only [List.mem_singleton] at hd; subst hd
+    exact trimEndSp_no_trailing line
+  · rw [if_neg hcnd] at h
+    unfold wrapSingleLineSlow at h
+    simp only at h
+    split at h
+    · simp at h
+    · next words hp =>
+      obtain ⟨c1, _⟩ := pipeline_contig env o (builtin_inRange _ _ hb) line _ words hp
+      have hfe := pipeline_endsOk_nobreak env o hb hbw line hc _ words hp
+      split at h
+      · simp at h
+      · next groups hg =>
+        obtain ⟨p1, _, _, _⟩ := wrapAlg_partition mo hmo o.alg words _ groups hg
+        rw [reassemble_eq_spec o line [] groups 0 nPrev (by simp [p1, c1]) rfl] at h
+        simp only [Option.some.injEq] at h; subst h
+        intro d hd
+        obtain ⟨pre, g, post, e1, e2⟩ := specLines_slices o groups 0 nPrev d hd
+        rw [e2]
+        exact groupSlice_no_trailing_sp' words hfe pre.flatten g post.flatten (by rw [← p1, e1]; simp)
 
 end
 
